@@ -210,7 +210,11 @@ func (x *Exec) addrOf(st *State, fr *frame, p Val, pos token.Pos, what string) *
 		// a pointer that came out of memory: object or slice element? ask which is refutable on this path
 		if isObj, isElem := x.refuteEither(st, "(iselem "+p.T+")"); isElem {
 			st.assumePC("(iselem " + p.T + ")")
-			return &Addr{Kind: AElem, Base: st.name("eb", "Int", "(ebase "+p.T+")"), Idx: st.name("ei", "Int", "(eidx "+p.T+")"), RootTy: pt.Elem()}
+			// name the element: p = eptr(b, i) for fresh constants (they exist: every element pointer is an eptr term)
+			b, i := st.freshSort("eb", "Int"), st.freshSort("ei", "Int")
+			st.assume("(= " + p.T + " (eptr " + b + " " + i + "))")
+			st.assume("(and (= " + b + " (ebase " + p.T + ")) (= " + i + " (eidx " + p.T + ")))")
+			return &Addr{Kind: AElem, Base: b, Idx: i, RootTy: pt.Elem()}
 		} else {
 			_ = isObj // undetermined: as everywhere else, a pointer of unknown provenance is taken to refer to an object
 		}
@@ -614,12 +618,18 @@ func (x *Exec) enterLoop(st *State, fr *frame, li *loopInfo) bool {
 		}
 		for i, c := range spec.Inv {
 			t, err := x.evalClause(st, ctx, c)
+			if err != nil && strings.HasPrefix(c.Label, "rt_") && strings.Contains(err.Error(), "unknown identifier") {
+				// an invariant about a logical variable that this root contract does not declare does not apply to it
+				continue
+			}
 			if err != nil {
 				x.errs = append(x.errs, err.Error())
 				x.oblige(st, fr.fn, "contract-error", lname+"/"+clauseName("invariant", i, c), "false")
 				continue
 			}
 			x.oblige(st, fr.fn, "inv-"+phase, lname+"/"+clauseName("invariant", i, c), t)
+			// clauses are established in order: later ones may use earlier ones (assert; assume; assert ...)
+			st.assume(t)
 		}
 	}
 	if fr.loops[li.header] {
